@@ -378,6 +378,108 @@ def gen_times(rng, tier, out):
         out.append({'kind': 'times', 'rate': fs(rate), 'durs': [fs(d) for d in durs]})
 
 
+# ROUND 4: sample rates that are no powers of two.  k / rate is then no binary64 number; the specification is the correctly
+# rounded exact quotient (Model.grid_time = float(Fraction(k) / rate)).  Integer rates (3, 5, 10, 12, 49: float(rate) exact,
+# so k / float(rate) is right but k * (1 / float(rate)) is one ulp off at k = 5, 7, 10, 14 ... / 3, 6, 7, 12 ... / 5, 9 ...),
+# decimal rates whose binary64 value is BELOW the rate (12/5, 6/5, 3/10, 7/10: k / float(rate) comes out one ulp high) and
+# ABOVE it (9/5, 18/5, 11/10, 13/10: one ulp low, the sample on a jump is taken before it), 1/3 and dyadic non-powers.
+NP2_RATES = [F(3), F(12), F(5), F(10), F(49), F(12, 5), F(6, 5), F(3, 10), F(7, 10), F(9, 5), F(18, 5), F(11, 10), F(13, 10),
+             F(33, 10), F(1, 3), F(3, 2), F(5, 4), F(7, 8)]
+
+
+def gen_times_np2(rng, tier, out):
+    for rate in NP2_RATES:                                        # deterministic: one long grid per rate
+        n = 100 if rate == 49 else 40
+        out.append({'kind': 'times', 'rate': fs(rate), 'durs': [fs(F(n) / rate)]})
+    for _ in range({'quick': 40, 'thorough': 600}[tier]):
+        rate = rng.choice(NP2_RATES)
+        durs = []
+        for _ in range(rng.randint(1, 3)):
+            k = rng.randint(1, 64)
+            r = rng.random()
+            if r < 0.8:
+                d = F(k) / rate
+            elif r < 0.86:
+                d = (F(k) + F(1, 2)) / rate                                   # rejected
+            elif r < 0.93:
+                d = (F(k) + rng.choice([-1, 1]) * F(1, 10 ** 12)) / rate     # inside the tolerance
+            else:
+                d = (F(k) + rng.choice([-1, 1]) * F(1, 10 ** 8)) / rate      # outside
+            durs.append(d)
+        out.append({'kind': 'times', 'rate': fs(rate), 'durs': [fs(d) for d in durs]})
+
+
+def _staircase(rate, n, mk, rng=None, edges=None, half=False):
+    """hold table over n samples: a jump to a new level at every edge (in samples; default: every sample), placed EXACTLY on
+    k / rate (or on (k + 1/2) / rate)"""
+    edges = list(range(1, n)) if edges is None else edges
+    tab = [['0', '0' if mk else '1/4', 'hold']]
+    for i, k in enumerate(edges):
+        v = F((i + 1) % 2) if mk else F(((i * 5 + 3) % 17) - 8, 4)
+        if F(tab[-1][1]) == v:
+            v += F(1, 4)
+        tab.append([fs((F(k) + (F(1, 2) if half else 0)) / rate), fs(v), 'hold'])
+    tab.append([fs(F(n) / rate), fs(F(tab[-1][1]) + F(1, 2)), 'hold'])
+    return {'table': tab}
+
+
+def gen_sample_np2(rng, tier, out):
+    """waveform edges exactly on the sample grid of a non-power-of-two rate"""
+    def case(rate, wfs, chans, markers, **kw):
+        c = {'kind': 'sample', 'rate': fs(rate), 'chans': chans, 'markers': markers, 'wfs': wfs, 'via_loop': False,
+             'repeat': [], 'rat': True}
+        c.update(kw)
+        out.append(c)
+    plain = lambda ch: {'ch': ch, 'T': None, 'amp': '1', 'off': '0'}
+    # deterministic: a staircase that jumps on EVERY sample, channel + marker derived from it
+    for rate in NP2_RATES:
+        n = 100 if rate == 49 else 40
+        wf = {'dur': fs(F(n) / rate), 'chs': [['A', _staircase(rate, n, False)], ['M', _staircase(rate, n, True)]]}
+        case(rate, [wf], [plain('A'), {'ch': 'A', 'T': ['aff', '2', '1'], 'amp': '2', 'off': '1/2'}], ['M', 'A'])
+    if tier == 'thorough':           # small scope, exhaustive: one single jump at every k of 32 samples, every rate
+        for rate in NP2_RATES:
+            for k in range(1, 32):
+                wf = {'dur': fs(F(32) / rate), 'chs': [['A', _staircase(rate, 32, True, edges=[k])]]}
+                case(rate, [wf], [plain('A')], ['A'])
+    for _ in range({'quick': 40, 'thorough': 500}[tier]):
+        rate = rng.choice(NP2_RATES)
+        lin = rng.random() < 0.25        # linear pieces: exact only without transformation / offset (the values are arbitrary
+        wfs = []                         # binary64 numbers, amplitude 2^j keeps the division exact)
+        for _ in range(rng.choice([1, 1, 2, 3])):
+            n = rng.randint(2, 48)
+            chs = []
+            for c in rng.choice([['A'], ['A', 'M'], ['A', 'B', 'M']]):
+                mk = c == 'M'
+                r = rng.random()
+                if r < 0.15:
+                    chs.append([c, {'const': fs(F(rng.randint(-8, 8), 4))}])
+                    continue
+                edges = sorted(rng.sample(range(1, n), rng.randint(1, min(6, n - 1))))
+                d = _staircase(rate, n, mk, edges=edges, half=rng.random() < 0.15)
+                if lin and not mk:
+                    for row in d['table'][1:]:
+                        if rng.random() < 0.5:
+                            row[2] = 'linear'
+                chs.append([c, d])
+            w = {'dur': fs(F(n) / rate), 'chs': chs}
+            if all([x for x, _ in w['chs']] == [x for x, _ in v['chs']] for v in wfs) and w not in wfs:
+                wfs.append(w)
+        common = [c for c, _ in wfs[0]['chs']]
+        chans = []
+        for _ in range(rng.randint(1, 3)):
+            if rng.random() < 0.2:
+                chans.append(None)
+            elif lin:
+                chans.append({'ch': rng.choice(common), 'T': None, 'amp': fs(F(2) ** rng.randint(-2, 2)), 'off': '0'})
+            else:
+                chans.append({'ch': rng.choice(common), 'T': rng.choice(TRAFOS), 'amp': fs(F(2) ** rng.randint(-2, 2)),
+                              'off': fs(rng.choice([F(0), F(1, 2), F(-1, 4)]))})
+        markers = [rng.choice([None] + common) for _ in range(rng.randint(1, 2))]
+        via_loop = rng.random() < 0.3
+        case(rate, wfs, chans, markers, via_loop=via_loop,
+             repeat=[rng.randint(0, len(wfs) - 1)] if via_loop and rng.random() < 0.5 else [], lin=lin)
+
+
 TRAFOS = [None, None, ['aff', '2', '1'], ['aff', '1/2', '-1/4'], ['aff', '-1', '0'], ['sq'], ['aff', '0', '3/4']]
 
 
@@ -597,6 +699,8 @@ def gen_cases(rng, tier, ctx):
     gen_nni(rng, tier, out)
     gen_times(rng, tier, out)
     gen_sample(rng, tier, out)
+    gen_times_np2(rng, tier, out)
+    gen_sample_np2(rng, tier, out)
     drng = __import__('random').Random(rng.getrandbits(64))
     return [decorate(drng, c) for c in out]
 
@@ -626,6 +730,12 @@ def _fl(x):
     return r
 
 
+def _rn(x):
+    """the binary64 number nearest to the rational x (int / int true division is correctly rounded)"""
+    f = F(x)
+    return f.numerator / f.denominator
+
+
 def _fr_list(arr):
     out = []
     for x in arr:
@@ -634,7 +744,9 @@ def _fr_list(arr):
     return out
 
 
-def build_waveform(desc):
+def build_waveform(desc, rat=False):
+    """rat: the table times are rationals k / rate that need not be binary64 numbers; the entry gets the binary64 number
+    nearest to the rational (what evaluating '5/3' in a TablePT gives)"""
     from qupulse.program.waveforms import ConstantWaveform, TableWaveform, TableWaveformEntry, MultiChannelWaveform
     from qupulse.pulses.interpolation import HoldInterpolationStrategy, LinearInterpolationStrategy
     from qupulse.utils.types import TimeType
@@ -645,7 +757,7 @@ def build_waveform(desc):
         if 'const' in d:
             parts.append(ConstantWaveform(TimeType.from_fraction(dur.numerator, dur.denominator), _fl(d['const']), c))
         else:
-            parts.append(TableWaveform.from_table(c, [TableWaveformEntry(_fl(t), _fl(v), interp[i])
+            parts.append(TableWaveform.from_table(c, [TableWaveformEntry(_rn(t) if rat else _fl(t), _fl(v), interp[i])
                                                       for t, v, i in d['table']]))
     return parts[0] if len(parts) == 1 else MultiChannelWaveform.from_parallel(parts)
 
@@ -920,13 +1032,16 @@ def run_impl(case):
             # the waveform's own sampling function on the harness' exact grid k / rate
             raw = []
             for d, w in zip(case['wfs'], wfs):
-                seg = F(d['dur']) * rate
+                seg = F(int(w.duration.numerator), int(w.duration.denominator)) * rate
                 nn = round(seg) if abs(seg - round(seg)) <= F(1, 10 ** 10) else math.floor(seg)
-                grid = np.array([_fl(F(i) / rate) for i in range(max(nn, 0))], dtype=float)
+                grid = np.array([_rn(F(i) / rate) for i in range(max(nn, 0))], dtype=float)   # exact for dyadic rates
                 raw.append([[c, _fr_list(w.get_sampled(c, grid))] for c, _ in d['chs']])
             return raw
         try:
-            wfs = [build_waveform(d) for d in case['wfs']]
+            wfs = [build_waveform(d, case.get('rat', False)) for d in case['wfs']]
+            durs = [fs(F(int(w.duration.numerator), int(w.duration.denominator))) for w in wfs]
+            if not case.get('rat') and durs != [d['dur'] for d in case['wfs']]:
+                raise RuntimeError('waveform durations %s differ from the descriptors' % durs)
             raw0 = raw_of(wfs)
         except Exception as e:
             return {'crash': 'raw sampling failed: %s: %s' % (type(e).__name__, str(e)[:200])}
@@ -1007,8 +1122,17 @@ def run_impl(case):
         if any(np.shares_memory(x, y) for i, xs in enumerate(arrs) for ys in arrs[i + 1:] for x in xs for y in ys):
             return {'crash': 'two ProgramEntry objects built from the same waveforms share sample memory'}
         o['raw'] = raw0
-        o['again'] = dict(o2, raw=raw0)
+        o['durs'] = durs
+        o['again'] = dict(o2, raw=raw0, durs=durs)
         o['ins'] = [a0 + e1, a1 + e1, a2 + e2]
+        # the grid itself: get_sample_times on the same waveform objects (the function _sample_waveforms takes its times from)
+        from qupulse.hardware import util as U
+
+        def grid():
+            t, l = U.get_sample_times(wfs_arg, tt_rate)
+            return [[vlib.frac_json(float(x)) for x in t], [int(x) for x in np.atleast_1d(l)]]
+        o['chain'] = _outcome(grid)
+        o['chain_case'] = {'kind': 'times', 'rate': case['rate'], 'durs': durs}
         return o
     raise ValueError(k)
 
@@ -1128,9 +1252,9 @@ def to_coq1(case, obs):
         def g_wf(d, raw):
             if any(x is None for _, xs in raw for x in xs):
                 raise ValueError('NaN in raw waveform samples')
-            return '(%s, %s)' % (gQs(d['dur']), glist(lambda cr: '(%s, %s)' % (g_chan(cr[0]), glist(gQs, cr[1])), raw))
+            return '(%s, %s)' % (gQs(d), glist(lambda cr: '(%s, %s)' % (g_chan(cr[0]), glist(gQs, cr[1])), raw))
         try:
-            wfs = glist(lambda dr: g_wf(dr[0], dr[1]), list(zip(case['wfs'], obs['raw'])))
+            wfs = glist(lambda dr: g_wf(dr[0], dr[1]), list(zip(obs['durs'], obs['raw'])))
         except ValueError:
             return 'CCrash'
         def g_res(r):
@@ -1271,11 +1395,89 @@ def py_avg(case, o):
     return None
 
 
+def py_times(case, o):
+    """get_sample_times: lengths = round-half-even(duration * rate) within 1e-10 and positive; grid = for every k below the
+    longest length the binary64 number nearest to the EXACT rational k / rate, bit for bit"""
+    rate = F(case['rate'])
+    durs = [F(d) for d in case['durs']]
+    lens = []
+    for d in durs:
+        seg = d * rate
+        r = rint_even(seg)
+        if abs(seg - r) > F(1, 10 ** 10) or r <= 0:
+            lens = None
+            break
+        lens.append(r)
+    if not durs or lens is None:
+        return None if 'err' in o else 'an empty list / a duration that is no positive whole number of samples was accepted'
+    if 'err' in o:
+        return 'durations that are whole numbers of samples were rejected'
+    ts, ls = o['ret']
+    if ls != lens:
+        return 'sample counts %s differ from duration * rate = %s' % (ls, lens)
+    want = [vlib.frac_json(_rn(F(k) / rate)) for k in range(max(lens))]
+    if ts != want:
+        if len(ts) != len(want):
+            return 'the grid has %d times, the longest waveform has %d samples' % (len(ts), len(want))
+        k = [a != b for a, b in zip(ts, want)].index(True)
+        return ('sample time %d is %r, the binary64 number nearest to %d / (%s) is %r' %
+                (k, float(F(ts[k])), k, rate, float(F(want[k]))))
+    return None
+
+
+def py_sample(case, o):
+    """(T(w(k / rate)) - offset) / amplitude per output and sample, markers = (w(k / rate) != 0); w(k / rate) = the waveform's
+    own sampling function on the correctly rounded grid (o['raw'])"""
+    rate = F(case['rate'])
+    lens = []
+    for d in o['durs']:
+        seg = F(d) * rate
+        r = rint_even(seg)
+        if abs(seg - r) > F(1, 10 ** 10) or r <= 0:
+            return None if 'err' in o else 'a waveform that is no positive whole number of samples long was sampled'
+        lens.append(r)
+    defined = [dict((c, xs) for c, xs in raw) for raw in o['raw']]
+    used = [c['ch'] for c in case['chans'] if c is not None] + [m for m in case['markers'] if m is not None]
+    if any(u not in dfn for dfn in defined for u in used):
+        return None if 'err' in o else 'an undefined channel was sampled'
+    if 'err' in o:
+        return 'a well-formed entry was rejected'
+
+    def trafo(T, x):
+        return x if T is None else F(T[1]) * x + F(T[2]) if T[0] == 'aff' else x * x
+    if len(o['ret']) != len(lens):
+        return 'number of sampled waveforms differs'
+    for wi, (n, dfn, (cs, ms)) in enumerate(zip(lens, defined, o['ret'])):
+        if len(cs) != len(case['chans']) or len(ms) != len(case['markers']):
+            return 'number of outputs differs'
+        for c, got in zip(case['chans'], cs):
+            if (c is None) != (got is None):
+                return 'empty output slot mixed up'
+            if c is None:
+                continue
+            want = [vlib.frac_json((trafo(c['T'], F(x)) - F(c['off'])) / F(c['amp'])) for x in dfn[c['ch']][:n]]
+            if got != want:
+                k = [a != b for a, b in zip(got, want)].index(True) if len(got) == len(want) else -1
+                return ('waveform %d, channel %s: sample %d is %s, (T(w(%d / rate)) - offset) / amplitude is %s' %
+                        (wi, c['ch'], k, got[k] if k >= 0 else len(got), k, want[k] if k >= 0 else len(want)))
+        for m, got in zip(case['markers'], ms):
+            if (m is None) != (got is None):
+                return 'empty marker slot mixed up'
+            if m is None:
+                continue
+            want = [F(x) != 0 for x in dfn[m][:n]]
+            if got != want:
+                k = [a != b for a, b in zip(got, want)].index(True) if len(got) == len(want) else -1
+                return 'waveform %d, marker %s: sample %d is %s although the voltage there is %s zero' % (
+                    wi, m, k, got[k] if k >= 0 else len(got), 'not' if k >= 0 and want[k] else '')
+    return None
+
+
 def _variants_agree(obs):
     return obs['np'] == obs['loop'] == obs['pub']
 
 
-_META = ('again', 'ins', 'chain', 'chain_case', 'raw')
+_META = ('again', 'ins', 'chain', 'chain_case', 'raw', 'durs')
 
 
 def stateful_why(obs):
@@ -1310,6 +1512,8 @@ def py_spec(case, obs):
     if 'chain' in obs:
         why = py_spec1(obs['chain_case'], obs['chain'])
         if why:
+            if obs['chain_case']['kind'] == 'times':
+                return 'get_sample_times on the sampled waveforms: %s' % why
             return 'pipeline (output fed into shrink_overlapping_windows %s): %s' % (obs['chain_case']['ws'], why)
     return None
 
@@ -1356,6 +1560,10 @@ def py_spec1(case, obs):
             return r
         if not _variants_agree(obs):
             return 'the internal implementations of average_windows disagree'
+    if k == 'times':
+        return py_times(case, obs)
+    if k == 'sample':
+        return py_sample(case, obs)
     return None
 
 
@@ -1419,6 +1627,12 @@ def histogram_keys(case, obs):
             keys.append('sample:via_loop')
     if k == 'times':
         keys.append('times:%s' % ('err' if 'err' in obs else 'ok'))
+    if k in ('times', 'sample'):
+        r = F(case['rate'])
+        keys.append('%s:rate-%s' % (k, 'power-of-two' if is_dyadic(r) and is_dyadic(F(1) / r)
+                                    else 'binary64-number' if is_dyadic(r) else 'not-a-binary64-number'))
+        if case.get('lin'):
+            keys.append('sample:np2-linear-pieces')
     # argument-object classes (round 3)
     for a in ('dtype', 'vdtype'):
         if a in case and k != 'shrink':
